@@ -41,6 +41,7 @@ class Translator:
     self.assigns = []
     self.counter = 0
     self.opaque_calls = set()
+    self.tagged_vars = {}   # local name -> (variable of the value or None, tag numbers)
     self.consts = {}        # local names bound to literal (atom) values: usable inside leaf expressions
 
   def fresh(self):
@@ -92,7 +93,17 @@ class Translator:
     return {'n': {'k': kind, 'ch': [[['i', i], self.expr(e, env)] for i, e in enumerate(node.elts)]}}
 
   def tagged(self, node, env):
-    """(value expression or None, tag numbers) when `node` is TaggedValue(...) / with_tags(...)."""
+    """(value expression or None, tag numbers) when `node` is TaggedValue(...) / with_tags(...);
+    a tagged value given as the value of a tagged value merges into it."""
+    r = self.tagged1(node, env)
+    while r is not None and r[0] is not None:
+      inner = self.tagged1(r[0], env)
+      if inner is None:
+        break
+      r = (inner[0], sorted(set(r[1]) | set(inner[1])))
+    return r
+
+  def tagged1(self, node, env):
     if not isinstance(node, ast.Call) or self.mentions_local(node.func, env):
       return None
     ok, f = self.try_pyeval(node.func)
@@ -109,10 +120,32 @@ class Translator:
 
   def cfg_node(self, fn, bk, keywords, env, positional=()):
     ch, tags = [], []
+    positional = list(positional)
+    if any(isinstance(a, ast.Starred) for a in positional):
+      flat = []
+      for a in positional:
+        if isinstance(a, ast.Starred):
+          if not isinstance(a.value, (ast.List, ast.Tuple)) or any(isinstance(e, ast.Starred) for e in a.value.elts):
+            raise Unsupported('*splat of a non-literal')
+          flat.extend(a.value.elts)          # f(*[x, y]) is f(x, y)
+        else:
+          flat.append(a)
+      positional = flat
+    keywords = list(keywords)
+    if any(k.arg is None for k in keywords):
+      flat = []
+      for k in keywords:
+        if k.arg is None:
+          if not isinstance(k.value, ast.Dict) or any(kk is None or not isinstance(kk, ast.Constant) or not isinstance(kk.value, str)
+                                                       for kk in k.value.keys):
+            raise Unsupported('**splat of a non-literal')
+          for kk, vv in zip(k.value.keys, k.value.values):      # f(**{'a': x}) is f(a=x)
+            flat.append(ast.keyword(arg=kk.value, value=vv))
+        else:
+          flat.append(k)
+      keywords = flat
     if positional:
       import inspect
-      if any(isinstance(a, ast.Starred) for a in positional):
-        raise Unsupported('*splat argument')
       try:
         params = list(inspect.signature(fn).parameters.values())
       except (TypeError, ValueError):
@@ -126,13 +159,33 @@ class Translator:
         else:
           raise Unsupported('too many positional arguments')
         tv = self.tagged(a, env)
+        if tv is None and isinstance(a, ast.Name) and a.id in self.tagged_vars and a.id in env:
+          xv, ts = self.tagged_vars[a.id]
+          if ts:
+            tags.append([key[1], ts])
+          if xv is not None:
+            ch.append([key, {'v': xv}])
+          continue
         if tv is not None:
-          raise Unsupported('tagged positional argument')
+          val, ts = tv
+          if ts:
+            tags.append([key[1], ts])
+          if val is not None:
+            ch.append([key, self.expr(val, env)])
+          continue
         ch.append([key, self.expr(a, env)])
     for k in keywords:
       if k.arg is None:
         raise Unsupported('** in a constructor call')
       tv = self.tagged(k.value, env)
+      if tv is None and isinstance(k.value, ast.Name) and k.value.id in self.tagged_vars and k.value.id in env:
+        xv, ts = self.tagged_vars[k.value.id]
+        # a TaggedValue assigned to an argument expands into its value and its tags
+        if ts:
+          tags.append([k.arg, ts])
+        if xv is not None:
+          ch.append([['a', k.arg], {'v': xv}])
+        continue
       if tv is not None:
         val, ts = tv
         if ts:
@@ -157,12 +210,41 @@ class Translator:
       fn = self.pyeval(node.args[0])
       return self.cfg_node(fn, f.__name__, node.keywords, env, node.args[1:])
     if f is functools.partial and self.auto:
-      if self.mentions_local(node.args[0], env) or isinstance(node.args[0], ast.Call):
+      inner = node.args[0]
+      if isinstance(inner, ast.Call) and not self.mentions_local(inner.func, env):
+        ok, g = self.try_pyeval(inner.func)
+        if ok and g is functools.partial:
+          # functools.partial(functools.partial(f, ...), ...): one Partial with the arguments merged
+          base = self.call(inner, env)['n']
+          if node.args[1:]:
+            raise Unsupported('positional arguments on a chained functools.partial')
+          extra = self.cfg_node(self.pyeval(inner.args[0]) if not isinstance(inner.args[0], ast.Call) else _chain_fn(self, inner),
+                                'Partial', node.keywords, env)['n']
+          merged = [c for c in base['ch'] if c[0] not in [d[0] for d in extra['ch']]]
+          # an overriding keyword keeps the position of the original argument
+          ch = []
+          over = {json_key(d[0]): d for d in extra['ch']}
+          used = set()
+          for c in base['ch']:
+            k = json_key(c[0])
+            if k in over:
+              ch.append(over[k]); used.add(k)
+            else:
+              ch.append(c)
+          ch += [d for d in extra['ch'] if json_key(d[0]) not in used]
+          tags = sorted({repr(t): t for t in base['tags'] + extra['tags']}.values(), key=repr)
+          return {'n': {'k': 'cfg', 'fn': base['fn'], 'bk': 'Partial', 'ch': ch, 'tags': tags}}
+      if self.mentions_local(inner, env) or isinstance(inner, ast.Call):
         raise Unsupported('functools.partial of an expression')
-      fn = self.pyeval(node.args[0])
+      fn = self.pyeval(inner)
       return self.cfg_node(fn, 'Partial', node.keywords, env, node.args[1:])
-    if self.tagged(node, env) is not None:
-      raise Unsupported('TaggedValue / with_tags outside an argument position')
+    tv = self.tagged(node, env)
+    if tv is not None:
+      # outside an argument position a TaggedValue is a node of its own
+      val, ts = tv
+      ch = [] if val is None else [[['a', 'value'], self.expr(val, env)]]
+      return {'n': {'k': 'cfg', 'fn': 'tagged_value_fn', 'bk': 'TaggedValueCls', 'ch': ch,
+                    'tags': [['value', ts]] if ts else []}}
     module = getattr(f, '__module__', '') or ''
     if module == 'builtins' and not self.mentions_local(node, env):
       val = self.pyeval(node)                     # float('inf'), complex(...), frozenset(...)
@@ -176,9 +258,63 @@ class Translator:
       if getattr(f, '__name__', '') in self.opaque_calls or isinstance(f, type(lambda: 0)) and f.__name__ == '<lambda>':
         raise Unsupported(f'call outside the modelled subset: {ast.unparse(node.func)}')
       if hasattr(f, 'as_buildable'):
-        raise Unsupported('call of another auto_config function')
+        return self.inline_auto_config(f, node, env)
       return self.cfg_node(f, 'Config', node.keywords, env, node.args)
     raise Unsupported(f'call: {ast.unparse(node.func)}')
+
+  def inline_auto_config(self, f, call, env):
+    """A call of another auto_config function that is inlined: its body is evaluated by
+    as_buildable as part of the caller's."""
+    import inspect
+    import textwrap
+    if getattr(f, 'always_inline', True) is False or getattr(f, '_always_inline', True) is False:
+      raise Unsupported('call of a never-inline auto_config function')
+    func = getattr(f, 'func', None) or getattr(f, '__wrapped__', None)
+    if func is None:
+      raise Unsupported('auto_config function without source')
+    try:
+      tree = ast.parse(textwrap.dedent(inspect.getsource(func)))
+    except (OSError, TypeError):
+      raise Unsupported('auto_config function without source')
+    fn = next(n for n in tree.body if isinstance(n, ast.FunctionDef))
+    if call.keywords or any(isinstance(a, ast.Starred) for a in call.args):
+      raise Unsupported('keywords in a call of an auto_config function')
+    saved_ns, saved_consts = self.ns, dict(self.consts)
+    # arguments are evaluated in the caller
+    params = [a.arg for a in fn.args.args]
+    bound = {}
+    for p_, a in zip(params, call.args):
+      e = self.expr(a, env)
+      x = self.fresh()
+      self.assigns.append([x, e])
+      bound[p_] = (x, e, a)
+    if len(bound) != len(params):
+      raise Unsupported('auto_config function called with defaults')
+    try:
+      self.ns = dict(getattr(func, '__globals__', {}))
+      local = {}
+      self.consts = {}
+      for p_, (x, e, a) in bound.items():
+        local[p_] = x
+        if 'a' in e and not self.mentions_local_in(a, env, saved_consts):
+          self.ns_saved = saved_ns
+          ok, val = self._eval_in(a, saved_ns, saved_consts)
+          if ok and graphs.is_atom(val):
+            self.consts[p_] = val
+      return self.body(fn, local)
+    finally:
+      self.ns, self.consts = saved_ns, saved_consts
+
+  def mentions_local_in(self, node, env, consts):
+    return any(isinstance(n, ast.Name) and n.id in env and n.id not in consts for n in ast.walk(node))
+
+  def _eval_in(self, node, ns, consts):
+    try:
+      g = dict(ns)
+      g.update(consts)
+      return True, eval(compile(ast.Expression(node), '<leaf>', 'eval'), g)
+    except Exception:
+      return False, None
 
   # -- function bodies -----------------------------------------------------------------
   def inline(self, fn, call, env):
@@ -205,6 +341,28 @@ class Translator:
         continue                                        # docstring
       if isinstance(st, ast.Assign) and len(st.targets) == 1 and isinstance(st.targets[0], ast.Name):
         name = st.targets[0].id
+        if isinstance(st.value, ast.Name) and st.value.id in env and st.value.id in self.tagged_vars:
+          src_name = st.value.id                 # an alias of a variable holding a tagged value
+          env[name] = env[src_name]
+          self.tagged_vars[name] = self.tagged_vars[src_name]
+          self.consts.pop(name, None)
+          continue
+        tvv = self.tagged(st.value, env)
+        self.tagged_vars.pop(name, None)
+        if tvv is not None:
+          val, ts = tvv
+          xv = None
+          if val is not None:
+            xv = self.fresh()
+            self.assigns.append([xv, self.expr(val, env)])
+          x = self.fresh()
+          self.assigns.append([x, {'n': {'k': 'cfg', 'fn': 'tagged_value_fn', 'bk': 'TaggedValueCls',
+                                          'ch': [] if xv is None else [[['a', 'value'], {'v': xv}]],
+                                          'tags': [['value', ts]] if ts else []}}])
+          env[name] = x
+          self.consts.pop(name, None)
+          self.tagged_vars[name] = (xv, ts)
+          continue
         e = self.expr(st.value, env)
         if 'a' in e and not self.mentions_local(st.value, env):
           ok, val = self.try_pyeval(st.value)
@@ -222,6 +380,13 @@ class Translator:
       else:
         raise Unsupported(f'statement: {ast.unparse(st)[:80]}')
     raise Unsupported('no return')
+
+
+def _chain_fn(tr, call):
+  """The underlying callable of functools.partial(functools.partial(... f ...))."""
+  while isinstance(call, ast.Call):
+    call = call.args[0]
+  return tr.pyeval(call)
 
 
 def program_of(code, namespace, auto, entry='config_fixture', args=None, opaque_calls=()):
